@@ -172,6 +172,7 @@ impl Handler {
     }
 
     async fn serve(&mut self, store: &Store, mut recver: tokio::sync::mpsc::Receiver<Frame>) {
+        let mut announced = false;
         while let Some(frame) = recver.recv().await {
             // Skip registration activity that occurred before this handler was registered
             if (frame.topic == format!("{}.register", self.topic)
@@ -192,6 +193,7 @@ impl Handler {
                         }))
                         .build(),
                 );
+                announced = true;
                 break;
             }
 
@@ -217,8 +219,22 @@ impl Handler {
                         }))
                         .build(),
                 );
+                announced = true;
                 break;
             }
+        }
+
+        if !announced {
+            // The subscription ended under the handler: it fell further behind the live stream
+            // than the store buffers. That is a stop like any other, so it is announced too.
+            let _ = store.append(
+                Frame::builder(format!("{}.unregistered", self.topic), self.context_id)
+                    .meta(serde_json::json!({
+                        "handler_id": self.id.to_string(),
+                        "error": "subscription ended: the handler fell too far behind the stream",
+                    }))
+                    .build(),
+            );
         }
     }
 
